@@ -5,8 +5,8 @@
 patch=$1; shift
 cd /verif || exit 2
 if ! git -C /repo diff --quiet; then echo "/repo has uncommitted changes"; exit 2; fi
-git -C /repo apply "$patch" || { echo "patch does not apply"; exit 2; }
-trap 'git -C /repo checkout -- . ; git -C /repo clean -fdq -- . 2>/dev/null' EXIT
+git -C /repo apply --3way "$patch" >/dev/null 2>&1 || { echo "patch does not apply"; exit 2; }
+trap 'git -C /repo reset -q; git -C /repo checkout -- . ; git -C /repo clean -fdq -- . 2>/dev/null' EXIT
 for p in "$@"; do
   ./vcheck $p --tier quick > out/logs/seed.$p.quick.log 2>&1; rc=$?
   echo "$p quick rc=$rc: $(grep -m1 '^violation' out/logs/seed.$p.quick.log | cut -c1-300)"
